@@ -12,10 +12,11 @@ pub mod kmt;
 pub mod layers;
 pub mod lru;
 pub mod retry;
+pub mod ribbit;
 pub mod store;
 
 pub fn all() -> Vec<Box<dyn DynScenario>> {
-    vec![Box::new(Erased(Arc::new(lru::Lru))), Box::new(Erased(Arc::new(cache::Cache))), Box::new(Erased(Arc::new(kmt::Kmt))), Box::new(Erased(Arc::new(store::Store))), Box::new(Erased(Arc::new(crash::Crash))), Box::new(Erased(Arc::new(corrupt::Corrupt))), Box::new(Erased(Arc::new(retry::Retry))), Box::new(Erased(Arc::new(layers::Layers))), Box::new(Erased(Arc::new(conc::Conc))), Box::new(Erased(Arc::new(failover::Failover)))]
+    vec![Box::new(Erased(Arc::new(lru::Lru))), Box::new(Erased(Arc::new(cache::Cache))), Box::new(Erased(Arc::new(kmt::Kmt))), Box::new(Erased(Arc::new(store::Store))), Box::new(Erased(Arc::new(crash::Crash))), Box::new(Erased(Arc::new(corrupt::Corrupt))), Box::new(Erased(Arc::new(retry::Retry))), Box::new(Erased(Arc::new(layers::Layers))), Box::new(Erased(Arc::new(conc::Conc))), Box::new(Erased(Arc::new(failover::Failover))), Box::new(Erased(Arc::new(ribbit::Ribbit)))]
 }
 
 pub fn by_property(id: &str) -> Option<Box<dyn DynScenario>> {
